@@ -575,7 +575,7 @@ pub fn grid_values(thorough: bool) -> Vec<(usize, i64, usize, usize, bool, bool,
 // =============================================================================================
 
 fn run_scenarios(ctx: &Ctx, rng: Rng, rep: &mut Report, kind: &str, count: u64, flavors: &[Flavor], props_on_hang: &[&str]) {
-    let watchdog = Duration::from_secs(if ctx.thorough() { 300 } else { 120 });
+    let watchdog = Duration::from_secs(if ctx.thorough() { 300 } else { 180 });
     let grid = if kind == "grid" { grid_values(ctx.thorough()) } else { Vec::new() };
     let total = if kind == "grid" { grid.len() as u64 } else { count };
     for i in 0..total {
